@@ -21,6 +21,63 @@ SPELLING_ATTRS = {"tokens", "raw", "normalized_from", "column", "raw_pattern", "
 SPELLING_MODULES = ["core.validator", "core.constraints", "core.repair"]
 
 
+MUT = {"append", "extend", "insert", "remove", "pop", "clear", "update", "setdefault", "add", "discard", "popitem", "sort", "reverse"}
+
+
+def _access_roots(e: ast.AST) -> set[str]:
+    """names an expression merely *accesses into* (attribute / item / .get / conditional choice): the result aliases them"""
+    if isinstance(e, ast.Name):
+        return {e.id}
+    if isinstance(e, (ast.Attribute, ast.Subscript)):
+        return _access_roots(e.value)
+    if isinstance(e, ast.IfExp):
+        return _access_roots(e.body) | _access_roots(e.orelse)
+    if isinstance(e, ast.BoolOp):
+        out: set[str] = set()
+        for v in e.values:
+            out |= _access_roots(v)
+        return out
+    if isinstance(e, ast.Call) and isinstance(e.func, ast.Attribute) and e.func.attr in ("get", "values", "items", "keys") :
+        return _access_roots(e.func.value)
+    if isinstance(e, ast.Call) and isinstance(e.func, ast.Name) and e.func.id == "getattr" and e.args:
+        return _access_roots(e.args[0])
+    return set()
+
+
+def param_object_writes(fi):
+    """(node, root) for stores / mutator calls that reach an object passed in as a parameter (other than self), directly or
+    through a local that aliases part of it"""
+    a = fi.node.args
+    params = {x.arg for x in list(a.posonlyargs) + list(a.args) + list(a.kwonlyargs)} - {"self", "cls"}
+    alias = set(params)
+    changed = True
+    while changed:
+        changed = False
+        for n in walk_no_nested(fi.node):
+            if isinstance(n, ast.Assign) and len(n.targets) == 1 and isinstance(n.targets[0], ast.Name) and n.targets[0].id not in alias:
+                if _access_roots(n.value) & alias and not isinstance(n.value, ast.Name) or (isinstance(n.value, ast.Name) and n.value.id in alias):
+                    alias.add(n.targets[0].id)
+                    changed = True
+            if isinstance(n, (ast.For, ast.comprehension)) and isinstance(n.target, ast.Name) and n.target.id not in alias and _access_roots(n.iter) & alias:
+                alias.add(n.target.id)
+                changed = True
+    for n in walk_no_nested(fi.node):
+        if isinstance(n, ast.Call) and isinstance(n.func, ast.Attribute) and n.func.attr in MUT:
+            roots = _access_roots(n.func.value)
+            if roots & alias:
+                yield n, sorted(roots & alias)[0]
+        elif isinstance(n, (ast.Attribute, ast.Subscript)) and isinstance(n.ctx, (ast.Store, ast.Del)):
+            roots = _access_roots(n.value)
+            if roots & alias:
+                yield n, sorted(roots & alias)[0]
+
+
+# parameters that are output accumulators by contract (the caller passes a fresh list to be filled)
+ACCUMULATOR_PARAMS = {
+    ("octave_mcp.core.routing:RoutingLog.add", None): "the log appends to itself",
+}
+
+
 def check(run: Run) -> None:
     res = Resolver(run.project)
     am = AstModel(run.project)
@@ -28,6 +85,7 @@ def check(run: Run) -> None:
     run.rule("R09.2", "repair is gated: every call of repair(..., fix=True) is control-dependent on the caller's fix (validate tool, CLI) or lenient (write tool) flag", 5)
     run.rule("R09.3", "the validator is spelling-blind: validator.py, constraints.py and repair.py read no spelling-carrying attribute (.tokens, .raw, .normalized_from, .column, .raw_pattern, .fence_marker)", 3)
     run.rule("R09.4", "octave_validate emits the parsed document untouched unless fix: `doc` is bound only by parse_with_warnings and (under fix) repair; execute itself writes no AST field; canonical is emit(doc) with no options", 4)
+    run.rule("R09.6", "value kind is preserved by canonicalisation (the C04 obligations this property rests on): what the emitter leaves bare is read back as the same kind of token; bool is never a number", 100)
     run.rule("R09.5", "_to_python_value converts AST values without loss: lists and maps element-wise, literal zones and scalars by identity", 4)
 
     for r in READONLY_ROOTS:
@@ -48,6 +106,49 @@ def check(run: Run) -> None:
                 st = getattr(st, "_parent", None)
             run.violation("R09.1", fi.module, fi.qualname, st or node, f"{kind} on document field `.{fld}` in code reachable from validation/emission/projection: validating or canonicalising would alter the content it reads")
     run.extra["readonly_scope_functions"] = len(reach)
+    # inputs other than the document (schema objects, registries handed in) are not modified either: a verdict must not depend on what was validated before
+    acc_cache: dict[tuple[str, str], bool] = {}
+
+    def is_accumulator(fi, pname: str, depth: int = 0) -> bool:
+        """every call site passes a fresh local container (bound to an empty literal / constructor in the caller) or the caller's own accumulator"""
+        key = (fi.fqn, pname)
+        if key in acc_cache:
+            return acc_cache[key]
+        acc_cache[key] = True  # recursion: assume, then verify
+        a = fi.node.args
+        ps = [x.arg for x in list(a.posonlyargs) + list(a.args)]
+        if pname not in ps:
+            acc_cache[key] = False
+            return False
+        idx = ps.index(pname) - (1 if ps and ps[0] in ("self", "cls") else 0)
+        sites = 0
+        ok = True
+        for caller in run.project.all_functions():
+            for n in walk_no_nested(caller.node):
+                if isinstance(n, ast.Call) and any(c.kind == "repo" and c.name == fi.fqn for c in res.resolve_call(caller, n)):
+                    sites += 1
+                    arg = n.args[idx] if 0 <= idx < len(n.args) else next((k.value for k in n.keywords if k.arg == pname), None)
+                    if not isinstance(arg, ast.Name):
+                        ok = False
+                        continue
+                    binds = [b.value for b in walk_no_nested(caller.node) if isinstance(b, (ast.Assign, ast.AnnAssign)) and any(isinstance(t, ast.Name) and t.id == arg.id for t in (b.targets if isinstance(b, ast.Assign) else [b.target])) and b.value is not None]
+                    fresh = bool(binds) and all((isinstance(v, (ast.List, ast.Dict, ast.Set)) and not (v.elts if not isinstance(v, ast.Dict) else v.keys)) or (isinstance(v, ast.Call) and ast.unparse(v.func) in ("list", "dict", "set")) and not v.args for v in binds)
+                    own = arg.id in [x.arg for x in caller.node.args.args] and depth < 4 and is_accumulator(caller, arg.id, depth + 1)
+                    if not (fresh or own):
+                        ok = False
+        acc_cache[key] = ok and sites > 0
+        return acc_cache[key]
+
+    for fq in sorted(reach):
+        fi = res.func_by_fqn(fq)
+        for node, root in param_object_writes(fi):
+            if is_accumulator(fi, root):
+                run.note(f"{fi.fqn}: parameter `{root}` is an output accumulator (every caller passes a fresh container)")
+                continue
+            st = node
+            while st is not None and not isinstance(st, ast.stmt):
+                st = getattr(st, "_parent", None)
+            run.violation("R09.1", fi.module, fi.qualname, st or node, f"code reachable from validation/emission writes into an object it received as parameter `{root}` (or a part of it): validating one document changes what the next validation sees")
 
     _gating(run, res, am, rule="R09.2")
 
@@ -121,3 +222,11 @@ def check(run: Run) -> None:
         run.instance("R09.5", vm.loc(r), f"_to_python_value: `{norm(r)}`", ok=ok)
         if not ok:
             run.violation("R09.5", vm, tp.qualname, r, "_to_python_value returns something other than the value itself or an element-wise conversion of a list/map: constraint evaluation would see a different value than the one written")
+
+    # ---------------------------------------------------------------- R09.6
+    from .. import bare, lexmodel
+    from .c04 import check_bool_before_int
+
+    lm = lexmodel.build(run.project)
+    bare.check_bare(run, "R09.6", lm, run.project.mod("core.emitter"))
+    check_bool_before_int(run, "R09.6", [("core.emitter", "emit_value"), ("core.constraints", "TypeConstraint.evaluate"), ("core.constraints", "RangeConstraint.evaluate"), ("core.validator", "Validator._validate_type")])
